@@ -84,12 +84,13 @@ type wWorld struct {
 	Files   []wFile  `json:"files"`
 	Targets []string `json:"targets"`
 	Bidi    bool     `json:"bidi"`
-	FDSet   bool     `json:"fdset"`   // entry point ProcessFileDescriptorSet* (harness only; targets are then empty)
-	Probes  []string `json:"probes"`  // C02: names to look up
-	Walks   []walkJ  `json:"walks"`   // C07: start nodes and visitor policies
-	Queries []queryJ `json:"queries"` // C05: dependency accessor calls, in order
-	Ops     []opJ    `json:"ops"`     // C06: accessor calls / walks, in order
-	Param   string   `json:"param"`   // C17: the request's parameter string ("" or "paths=source_relative")
+	FDSet   bool     `json:"fdset"`         // entry point ProcessFileDescriptorSet* (harness only; targets are then empty)
+	Probes  []string `json:"probes"`        // C02: names to look up
+	Walks   []walkJ  `json:"walks"`         // C07: start nodes and visitor policies
+	Queries []queryJ `json:"queries"`       // C05: dependency accessor calls, in order
+	Ops     []opJ    `json:"ops"`           // C06: accessor calls / walks, in order
+	Param   string   `json:"param"`         // C17: the request's parameter string ("" or "paths=source_relative")
+	Rev     bool     `json:"rev,omitempty"` // C04 (harness only): ask the files in reverse order
 }
 
 type ref struct {
